@@ -1,2 +1,8 @@
 // Package props links every property check into the worker binary.
 package props
+
+import (
+	_ "verif/props/c15"
+	_ "verif/props/c16"
+	_ "verif/props/c17"
+)
